@@ -60,6 +60,8 @@ func runC14(r *simrt.Run, tier Tier) Outcome {
 	r.OrderPolicy = r.Choose(simrt.NumOrderPolicies, "c14.order")
 	r.OrderSeed = uint64(r.Choose(1<<16, "c14.orderseed"))
 	names := []string{"/a", "/b", "/c"}[:1+r.Choose(3, "c14.nnames")]
+	nowSec := int64(r.Choose(41, "c14.now"))
+	clockMode := r.OneIn(4, "c14.clockmode")
 	// coalesced base facts: per atom pairwise disjoint, non-adjacent intervals
 	facts := map[string][]c14Iv{}
 	var src strings.Builder
@@ -82,6 +84,16 @@ func runC14(r *simrt.Run, tier Tier) Outcome {
 			if last && r.OneIn(8, "c14.rightunbounded") {
 				i.hi = posInf
 			}
+			// "... until now": the documented spelling of an interval that ends at
+			// the evaluation time (only when that time is given, and not before the start)
+			if !clockMode && i.hi != posInf && i.lo != negInf && i.lo <= nowSec && r.OneIn(6, "c14.untilnow") {
+				i.hi = nowSec
+				facts[n] = append(facts[n], i)
+				fmt.Fprintf(&src, "ev(%s)@[%s, now].\n", n, c14TS(i.lo))
+				total++
+				r.Probe("base-fact-until-now")
+				break
+			}
 			facts[n] = append(facts[n], i)
 			fmt.Fprintf(&src, "ev(%s)%s.\n", n, i.ann())
 			total++
@@ -91,8 +103,6 @@ func runC14(r *simrt.Run, tier Tier) Outcome {
 			pos = i.hi + 2 + int64(r.Choose(6, "c14.gap")) // gap >= 2 s: not adjacent
 		}
 	}
-	nowSec := int64(r.Choose(41, "c14.now"))
-	clockMode := r.OneIn(4, "c14.clockmode")
 	// rules
 	type opRule struct {
 		head   string
@@ -107,6 +117,38 @@ func runC14(r *simrt.Run, tier Tier) Outcome {
 		o := opRule{head: fmt.Sprintf("d%d", k), op: []string{"<-", "[-", "<+", "[+"}[r.Choose(4, "c14.op")], d1: d1, d2: d2}
 		ops = append(ops, o)
 		fmt.Fprintf(&src, "%s(X) :- %s[%ds, %ds] ev(X).\n", o.head, o.op, o.d1, o.d2)
+	}
+	// a second temporal predicate whose intervals lie inside ev's (so it stays
+	// coalesced), some starting together with them, and rules that use one
+	// interval variable in two literals: the instants must agree
+	joinMode := r.OneIn(3, "c14.join")
+	wfacts := map[string][]c14Iv{}
+	if joinMode {
+		src.WriteString("Decl ew(A) temporal.\n")
+		for _, n := range names {
+			for _, i := range facts[n] {
+				if i.lo == negInf || i.hi == posInf || r.OneIn(3, "c14.w.skip") {
+					continue
+				}
+				w := i
+				switch r.Choose(4, "c14.w.shape") {
+				case 0: // same interval
+				case 1: // same start, earlier end
+					w.hi = w.lo + (w.hi-w.lo)/2
+				case 2: // later start, same end
+					w.lo = w.hi - (w.hi-w.lo)/2
+				default: // strictly inside, if there is room
+					if w.hi-w.lo >= 2 {
+						w.lo, w.hi = w.lo+1, w.hi-1
+					}
+				}
+				wfacts[n] = append(wfacts[n], w)
+				fmt.Fprintf(&src, "ew(%s)%s.\n", n, w.ann())
+			}
+		}
+		src.WriteString("js(X, S) :- ev(X)@[S, E1], ew(X)@[S, E2].\n")
+		src.WriteString("je(X, E) :- ew(X)@[S1, E], ev(X)@[S2, E].\n")
+		r.Probe("shared-interval-variable")
 	}
 	enumRule := r.Bool("c14.enum")
 	if enumRule {
@@ -272,6 +314,21 @@ func runC14(r *simrt.Run, tier Tier) Outcome {
 		}
 		if o.d1 == o.d2 {
 			r.Probe("zero-length-window")
+		}
+	}
+	if joinMode {
+		for n, ws := range wfacts {
+			for _, w := range ws {
+				wantTemporal["ew("+n+")@"+w.ns().String()] = 1
+				for _, i := range facts[n] {
+					if i.ns().lo == w.ns().lo {
+						wantPlain[fmt.Sprintf("js(%s, t:%d)", n, w.ns().lo)] = true
+					}
+					if i.ns().hi == w.ns().hi {
+						wantPlain[fmt.Sprintf("je(%s, t:%d)", n, w.ns().hi)] = true
+					}
+				}
+			}
 		}
 	}
 	if enumRule {
